@@ -473,9 +473,13 @@ pub fn run(ctx: &Ctx) {
             if i % 11 == 0 {
                 acc.sample(&format!("kind:{}", type_name(v)), || show_value(v));
             }
-            check_wrong_kind(v)?;
-            check_value_collections(v)?;
-            check_scalar_roundtrip(v)
+            // (conversions into a Value are infallible by signature: a panic inside one is a violation, not a crash of the check)
+            catch(|| {
+                check_wrong_kind(v)?;
+                check_value_collections(v)?;
+                check_scalar_roundtrip(v)
+            })
+            .unwrap_or_else(|p| Err(Issue::new("convert:panic", format!("a conversion of {} panicked: {p}", show_value(v)))))
         },
         |i| json!({"value": value_to_json(&pool[i as usize])}),
         "value",
@@ -490,9 +494,12 @@ pub fn run(ctx: &Ctx) {
             if let Some(acc) = acc {
                 acc.case(&format!("rv:{}", type_name(&v)), true, || show_value(&v));
             }
-            check_wrong_kind(&v)?;
-            check_value_collections(&v)?;
-            check_scalar_roundtrip(&v)
+            catch(|| {
+                check_wrong_kind(&v)?;
+                check_value_collections(&v)?;
+                check_scalar_roundtrip(&v)
+            })
+            .unwrap_or_else(|p| Err(Issue::new("convert:panic", format!("a conversion of {} panicked: {p}", show_value(&v)))))
         },
         |bytes| json!({"value": value_to_json(&gen::gen_value(&mut Dec::new(bytes), 2))}),
         "value",
